@@ -199,7 +199,8 @@ def _handle_generic_types(
     if incoming_origin is Annotated:
         return _compare_single_annotated_type(incoming_type, required_type, memo)
     if required_origin is Annotated:
-        return _compare_single_annotated_type(required_type, incoming_type, memo)
+        required_primary, *_ = get_args(required_type)
+        return is_type_compatible(incoming_type, required_primary, memo)
 
     # Handle generic types
     if incoming_origin and required_origin:
